@@ -50,3 +50,21 @@ Definition f64_neg (a : f64) : f64 := SFopp a.
 
 (* The literal 1e<k> as rustc rounds it: the double nearest to 10^k. *)
 Definition pow10_f64 (k : N) : f64 := f64_of_Z (10 ^ Z.of_N k).
+
+(* Correctly rounded significand * 10^exponent: what str::parse::<f64> returns
+   for "<significand>e<exponent>" (std documents correct rounding). Used as the
+   oracle for the build without fast-float-parsing. Exponents beyond the range
+   where the result can be anything but 0 / infinity are clamped so that the
+   power of ten stays small. *)
+Definition dec_to_f64 (sig : N) (exp : Z) : f64 :=
+  match sig with
+  | N0 => S754_zero false
+  | Npos p =>
+      if (310 <? exp)%Z then S754_infinity false
+      else if (exp <? -345)%Z then S754_zero false
+      else if (0 <=? exp)%Z then f64_of_Z (Zpos p * 10 ^ exp)
+      else match (10 ^ (- exp))%Z with
+           | Zpos d => SFdiv prec emax (S754_finite false p 0) (S754_finite false d 0)
+           | _ => S754_nan
+           end
+  end.
